@@ -37,6 +37,9 @@ func judgeC01(x scnResult, res *MonitorResult) {
 			h := o.A["hash"]
 			in := map[string]interface{}{"scenario": scenarioKey(x.sc.steps), "role": x.sc.role}
 			res.Histogram["claim pay"]++
+			if x.w.rw != nil {
+				res.Histogram["claim pay under the real validators ("+scnChain(x.sc.steps)+")"]++
+			}
 			a, known := anns[h+"/"+o.A["msat"]]
 			switch {
 			case !known:
@@ -92,6 +95,34 @@ func c01Scenarios(r *rng, n int) []scn {
 				}
 				all = append(all, scn{role: role, steps: st3})
 			}
+		}
+	}
+	// the same with the REAL validators under the machine (lnd.Client's BitcoinOnChain, LiquidOnChain) and real
+	// Elements transactions: explicit / foreign-asset / wrongly blinded / lying-rangeproof swap outputs
+	rw := defaultCfg()
+	rw.RealWallets = true
+	for _, role := range []string{"outSender", "inReceiver"} {
+		for _, v := range []string{"", "tx=wrongamount", "tx=wronghash", "tx=wrongcsv", "tx=wrongmaker", "pos=1", "pos=2 vout=0", "dmsat=1"} {
+			for _, lq := range []string{"", "lq=explicit", "lq=otherasset", "lq=explicit-otherasset", "lq=wrongblind", "lq=lying"} {
+				var steps []string
+				for _, s := range baseScript(role, "lbtc") {
+					if s == "txmsg" {
+						s = strings.TrimSpace("txmsg " + v + " " + lq)
+					}
+					steps = append(steps, s)
+				}
+				cfg := rw
+				all = append(all, scn{role: role, steps: append(steps, "restart", "confirm"), cfg: &cfg})
+			}
+			var steps []string
+			for _, s := range baseScript(role, "btc") {
+				if s == "txmsg" {
+					s = strings.TrimSpace("txmsg " + v)
+				}
+				steps = append(steps, s)
+			}
+			cfg := rw
+			all = append(all, scn{role: role, steps: steps, cfg: &cfg})
 		}
 	}
 	for i := 0; i < n; i++ {
